@@ -6,7 +6,7 @@ use crate::mux::{run_mux, CallResult};
 use crate::prng::{mix, Rng};
 use crate::runner::{Prop, Tier};
 use crate::scenario::*;
-use crate::simdisk::{ErrK, Fault, Sim, SimDisk};
+use crate::simdisk::{ErrK, Fault, Sim};
 use crate::stats::{hash_str, Stats};
 use crate::verdict::Violation;
 use serde::{Deserialize, Serialize};
@@ -20,11 +20,18 @@ pub struct HostileCase {
     pub fault: Option<(u64, Fault)>,
 }
 
-/// Is the history inside the domain in which the other muxer properties are stated?
-fn in_valid_domain(sc: &MuxScenario) -> bool {
+/// Is the history inside the domain in which the other muxer properties are stated? Judged on
+/// the calls the muxer accepted: rejected calls leave no trace, so their arguments do not matter.
+fn in_valid_domain(full: &MuxScenario, results: &[CallResult]) -> bool {
+    let sc = &MuxScenario {
+        ops: full.ops.iter().enumerate().filter(|(i, _)| results.get(i + 1).map(|r| r.is_ok()).unwrap_or(false)).map(|(_, o)| o.clone()).collect(),
+        ..full.clone()
+    };
     if sc.cfg.timescale == 0 {
         return false;
     }
+    // a write to a track id that only exists because an earlier add_track was rejected would
+    // shift ids: keep the accepted-ops view consistent (ids refer to accepted tracks in order)
     let mut probe = sc.clone();
     fit_durations(&mut probe);
     if probe != *sc {
@@ -109,7 +116,7 @@ impl Prop for C17 {
         let prop = "C17";
         let sc = &case.sc;
         let mut out = Vec::new();
-        let sim = Sim::shared(SimDisk::new());
+        let sim = Sim::shared(modea::initial_disk(sc));
         {
             let mut s = sim.borrow_mut();
             s.set_transparent(sc.io.chunking, sc.io.intr_ppm, sc.io.io_seed);
@@ -175,18 +182,19 @@ impl Prop for C17 {
         st.distinct.insert(h);
         if all_ok && run.ended_ok && !fault_fired {
             st.inc("histories_all_ok");
-            if in_valid_domain(sc) {
+            if in_valid_domain(sc, &run.results) {
                 st.inc("histories_all_ok_in_domain");
                 let model = Model::build(prop, sc, &run, &mut out);
-                check_readback(prop, &sim, sc.start_pos, &model, false, &mut out);
-                match crate::indep::parse(&sim.borrow().disk, sc.start_pos, sim.borrow().disk.len()) {
+                let end = run.end_pos.unwrap_or_else(|| sim.borrow().disk.len());
+                check_readback(prop, &sim, sc.start_pos, end, &model, false, &mut out);
+                let parsed = crate::indep::parse(&sim.borrow().disk, sc.start_pos, end);
+                match parsed {
                     Ok(m) => {
-                        let end = sim.borrow().disk.len();
                         modea::check_structure(prop, &m, &model, end, &mut out);
                     }
                     Err((inv, d)) => out.push(Violation::new(prop, inv, "parse".to_string(), d)),
                 }
-                check_config(prop, &sim, sc, &model, true, &mut out);
+                check_config(prop, &sim, sc, end, &model, true, &mut out);
             }
         }
         st.absorb_sim(&sim.borrow());
